@@ -189,6 +189,11 @@ func (b *Buffer) ServeHTTP(w http.ResponseWriter, req *http.Request) {
 			return
 		}
 
+		if bw.code == 0 {
+			// the handler did not choose a status: net/http semantics make that a 200
+			bw.code = http.StatusOK
+		}
+
 		if bw.writeError != nil {
 			b.log.Error("vulcand/oxy/buffer: failed to copy response, err: %v", bw.writeError)
 			b.errHandler.ServeHTTP(w, req, bw.writeError)
